@@ -339,3 +339,101 @@ def r03_13_scaling_uses_the_exact_total(ctx: Ctx) -> RuleResult:
         else:
             rr.fail(f.qual, f"`{unparse(bad)[:100]}` adds separately range-checked parts: a part can be out of range although the exact result is representable (or the reverse)", ctx.loc(f, bad))
     return rr
+
+
+# ------------------------------------------------------------------------------------------- R03.14 tick <-> (day, tick of day)
+
+
+@rule("C03")
+def r03_14_tick_arithmetic(ctx: Ctx) -> RuleResult:
+    """_TickArithmetic splits a tick count into (floor day, tick of day in [0, ticks per day)) and joins it again; both directions
+    are evaluated by the abstract interpreter on exact integers - around zero, at exact (negative) multiples of a day, at the
+    64-bit edges and far beyond them - and compared with floor division.  A negative exact multiple must give tick-of-day 0, not
+    a whole day (a pre-1970 midnight written as raw ticks in the zone file would read back as a different instant)."""
+    from ..absint import Iv
+    from ..oblig import interp
+
+    rr = RuleResult("R03.14", "tick <-> (floor day, tick of day) conversions equal floor division / its inverse on every probed value, including negative exact multiples of a day and values beyond 64 bits", min_instances=3)
+    M = ctx.M
+    tpd = M.fold_class_const("PyodaConstants", "TICKS_PER_DAY")
+    if not isinstance(tpd, int):
+        raise AnalysisError("PyodaConstants.TICKS_PER_DAY not foldable")
+    probes = [0, 1, -1, tpd - 1, tpd, tpd + 1, -tpd + 1, -tpd, -tpd - 1, -2 * tpd, 7 * tpd + 12345, -7 * tpd - 12345, 2**63 - 1, -(2**63), -(2**63) - 1, 2**63, (10**20) * tpd, -(10**20) * tpd, -(10**20) * tpd - 1]
+    f = M.func("_TickArithmetic.ticks_to_days_and_tick_of_day")
+    rr.inst()
+    bad = None
+    for t in probes:
+        I = interp(ctx)
+        rets, _ = I.analyse(f, params={f.value_params[0].arg: Iv(t, t)})
+        rr.states += 1
+        got = set()
+        for v, _x in rets:
+            items = getattr(v, "items", None)
+            if items is not None and len(items) == 2 and all(isinstance(i, Iv) and i.lo == i.hi for i in items):
+                got.add((int(items[0].lo), int(items[1].lo)))
+            else:
+                got.add(("?", repr(v)))
+        if got != {divmod(t, tpd)}:
+            bad = bad or (t, sorted(got, key=str), divmod(t, tpd))
+    if bad is None:
+        rr.ok({"function": f.qual, "probes": len(probes)})
+    else:
+        rr.fail(f.qual, f"{bad[0]} ticks splits into {bad[1]}; floor division gives {bad[2]} (tick of day must lie in [0, {tpd}))", ctx.loc(f))
+    for q in ("_TickArithmetic.days_and_tick_of_day_to_ticks", "_TickArithmetic.bounded_days_and_tick_of_day_to_ticks"):
+        g = M.func(q)
+        rr.inst()
+        bad = None
+        for t in probes:
+            d, tod = divmod(t, tpd)
+            I = interp(ctx)
+            rets, _ = I.analyse(g, params={g.value_params[0].arg: Iv(d, d), g.value_params[1].arg: Iv(tod, tod)})
+            rr.states += 1
+            got = {int(v.lo) if isinstance(v, Iv) and v.lo == v.hi else repr(v) for v, _x in rets}
+            if got != {t}:
+                bad = bad or (d, tod, sorted(got, key=str), t)
+        if bad is None:
+            rr.ok({"function": q, "probes": len(probes)})
+        else:
+            rr.fail(g.qual, f"({bad[0]} days, {bad[1]} ticks) joins to {bad[2]}, not {bad[3]}", ctx.loc(g))
+    return rr
+
+
+# ------------------------------------------------------------------------------------------- R03.15 truncated views of a Duration
+
+
+@rule("C03")
+def r03_15_duration_truncated_views(ctx: Ctx) -> RuleResult:
+    """A Duration is stored as (floor days, nanosecond of that day in [0, one day)).  Its public `days` / `nanosecond_of_day` are the
+    truncated-toward-zero decomposition of the same total.  The two properties are evaluated by the abstract interpreter on
+    exact field values (zero, positive, negative with and without a time part, the last nanosecond of a day) and must satisfy
+    days * NPD + nanosecond_of_day == floor_days * NPD + nano_of_day, |nanosecond_of_day| < NPD and no mixed signs; the derived
+    components (hours ... subsecond nanoseconds, total_* where integral) are then bounded by construction."""
+    from ..absint import Iv, Obj
+    from ..oblig import interp
+
+    rr = RuleResult("R03.15", "Duration.days / nanosecond_of_day are the truncated-toward-zero decomposition of the stored floor representation on every probed value (sum preserved, |nanosecond_of_day| < one day, no mixed signs)", min_instances=8)
+    M = ctx.M
+    c = M.cls("Duration")
+    npd = M.fold_class_const("PyodaConstants", "NANOSECONDS_PER_DAY")
+    fd, fn = M.find_method(c, "days"), M.find_method(c, "nanosecond_of_day")
+    if fd is None or fn is None or not isinstance(npd, int):
+        raise AnalysisError("Duration.days / nanosecond_of_day / NANOSECONDS_PER_DAY not found")
+    for d, n in ((0, 0), (0, 5), (3, 0), (3, npd - 1), (-1, 0), (-1, 5), (-1, npd - 1), (-4, 0), (-4, 12345), (-(2**24), 0)):
+        rr.inst()
+        so = Obj("Duration", {mangle("Duration", "__days"): Iv(d, d), mangle("Duration", "__nano_of_day"): Iv(n, n)})
+        vals = []
+        for g in (fd, fn):
+            I = interp(ctx)
+            rets, _ = I.analyse(g, self_obj=so, params={})
+            rr.states += 1
+            got = {int(v.lo) for v, _x in rets if isinstance(v, Iv) and v.lo == v.hi}
+            vals.append(got.pop() if len(got) == 1 and len(rets) >= 1 and all(isinstance(v, Iv) and v.lo == v.hi for v, _x in rets) else None)
+        td, tn = vals
+        total = d * npd + n
+        if td is None or tn is None:
+            rr.fail(fd.qual, f"floor representation ({d} days, {n} ns): the views are not constants under abstract evaluation (not decided)", ctx.loc(fd))
+        elif td * npd + tn == total and abs(tn) < npd and ((total >= 0 and td >= 0 and tn >= 0) or (total < 0 and td <= 0 and tn <= 0)):
+            rr.ok({"floor": (d, n), "truncated": (td, tn)})
+        else:
+            rr.fail(fn.qual if td == (d if d >= 0 or n == 0 else d + 1) else fd.qual, f"floor representation ({d} days, {n} ns) = {total} ns in total, but days = {td} and nanosecond_of_day = {tn} (sum {td * npd + tn}; |nanosecond_of_day| must be < {npd} with the sign of the total)", ctx.loc(fn))
+    return rr
